@@ -661,6 +661,21 @@ class Summariser:
         for name, outs in self.larr_final.items():
             f = self.ph[name]
             i = fresh("i", z3.IntSort())
+            cn = concrete_int(self.env0[name].n)
+            if cn is not None and cn <= 64:
+                # concrete length: cell by cell (element readers of eagerly evaluated arrays are tables over concrete indices)
+                ds = []
+                for j in range(cn):
+                    mj = self._merge([(c, to_real(g(j))) for c, g in outs])
+                    ds.append(delta_of(mj, f(z3.IntVal(j))))
+                if not any(self._mentions_fn(dj, f) for dj in ds):
+                    d = ds[-1]
+                    for j in range(cn - 2, -1, -1):
+                        d = z3.If(i == j, ds[j], d)
+                    if all(z3.is_rational_value(z3.simplify(dj)) and z3.simplify(dj).numerator_as_long() == 0 for dj in ds):
+                        continue
+                    self.larr_mode[name] = ("inc", i, d)
+                    continue
             merged = self._merge([(c, to_real(g(i))) for c, g in outs])
             d = delta_of(merged, f(i))
             if not self._mentions_fn(d, f):
